@@ -53,8 +53,17 @@ def gen_labels(rng: random.Random, n: int) -> list:
                 api = 'kill' if rng.random() < 0.0 else 'send'
             args = {}
             if api == 'reset':
-                args = rng.choice([{'statement': 'B', 'run_no_start_from': 10}, {'statement': 'C'}, {'run_no_start_from': 20},
-                                   {'trace_threads': True}, {}])
+                args = rng.choice([{'statement': 'B', 'run_no_start_from': 10}, {'statement': 'C'}, {'run_no_start_from': 20}, {}, None])
+                if args is None:      # any subset of the options, each tracing option absent / on / off
+                    args = {}
+                    if rng.random() < 0.4:
+                        args['statement'] = rng.choice('ABC')
+                    if rng.random() < 0.3:
+                        args['run_no_start_from'] = rng.choice([1, 5, 10, 20])
+                    for o in ('trace_threads', 'trace_modules'):
+                        v = rng.choice([None, True, False])
+                        if v is not None:
+                            args[o] = v
             out.append(['call', t, api, args])
         elif r < 0.62:
             out.append(['step', t])
@@ -176,6 +185,9 @@ def canon_impl(obs: list[dict]) -> dict[int, list]:
             if o['hook'] not in ('on_change_script', 'on_initialize_run', 'on_start_run'):
                 stmt = -1
             per[cur].append([1, h, FSM.index(o['state']), o['run_no'] if o['run_no'] is not None else -1, stmt])
+            if o['hook'] == 'on_initialize_run':    # the tracing options frozen into the run arguments
+                f = lambda x: -1 if x is None else 1 if x else 0
+                per[cur].append([4, f(o.get('trace_threads')), f(o.get('trace_modules'))])
         elif k == 'pub':
             t, v = o['topic'], o['value']
             if t == 'state_name':
